@@ -1,0 +1,39 @@
+//! Verification hooks, compiled only with `--cfg stylua_verif`. Nothing here is reachable in a normal build.
+use std::cell::Cell;
+
+thread_local! {
+    static MAX_USED_WIDTH: Cell<usize> = const { Cell::new(0) };
+}
+
+/// Called from `Shape::over_budget`: remembers the largest width ever compared against a finite column width.
+pub(crate) fn note_budget_check(used_width: usize, column_width: usize) {
+    if column_width != usize::MAX {
+        MAX_USED_WIDTH.with(|m| {
+            if used_width > m.get() {
+                m.set(used_width)
+            }
+        });
+    }
+}
+
+/// Returns the largest width compared against a finite column width on this thread since the last call, and resets it.
+pub fn take_max_used_width() -> usize {
+    MAX_USED_WIDTH.with(|m| m.replace(0))
+}
+
+/// Fault injection for the command line explorer: only active when `STYLUA_VERIF_FAULTS=1`.
+/// A source containing `--!verif:panic` makes formatting panic; one containing `--!verif:verify-fail` makes the
+/// formatter return a different (valid) program, which output verification must then reject.
+pub(crate) fn inject_fault(ast: full_moon::ast::Ast) -> full_moon::ast::Ast {
+    if std::env::var_os("STYLUA_VERIF_FAULTS").map_or(true, |v| v != "1") {
+        return ast;
+    }
+    let text = ast.to_string();
+    if text.contains("--!verif:panic") {
+        panic!("verif: injected formatter panic");
+    }
+    if text.contains("--!verif:verify-fail") {
+        return full_moon::parse("local verif_fault = 1\n").expect("verif: fault program parses");
+    }
+    ast
+}
